@@ -127,8 +127,13 @@ func famCancel(w *World) {
 		msgs := w.wireOr.reqByTag[s.Tag]
 		if s.Timeout < time.Millisecond {
 			w.eval("C14.sub-millisecond")
-			if tchannel.GetSystemErrorCode(r.Err) != tchannel.ErrCodeTimeout && !r.Cancelled {
-				w.violate("C14", "sub-ms-not-timeout", "call %s with %v left ended with %s, want a local timeout", s.Tag, s.Timeout, errStr(r.Err))
+			// (a connection problem may end the call before the ttl is even computed; what must
+			// not happen is that a call with no millisecond left goes through)
+			if r.Err == nil {
+				w.violate("C14", "sub-ms-not-timeout", "call %s with %v left succeeded, want a local timeout", s.Tag, s.Timeout)
+			}
+			if tchannel.GetSystemErrorCode(r.Err) != tchannel.ErrCodeTimeout {
+				w.probe("C14.sub-ms-ended-otherwise")
 			}
 			if len(msgs) > 0 || r.H.Entered {
 				w.violate("C14", "sub-ms-frame-sent", "call %s with %v left still put a request on the wire", s.Tag, s.Timeout)
@@ -157,7 +162,7 @@ func famCancel(w *World) {
 		if r.Cancelled && r.Err != nil && r.EndAt < r.Deadline && code != tchannel.ErrCodeCancelled && r.CancelAt <= r.EndAt {
 			// a cancelled call may still have completed or failed for another reason before the cancel
 			// took effect; but if it ended BECAUSE of the context, the code must be cancelled
-			if code == tchannel.ErrCodeTimeout && maxTO == 0 {
+			if code == tchannel.ErrCodeTimeout && maxTO == 0 && r.BeginErr == nil && r.CancelAt+2*time.Millisecond+r.StallIn < r.Deadline {
 				w.violate("C14", "cancel-reported-as-timeout", "call %s was cancelled at %v (deadline %v) and ended at %v with %s", s.Tag, r.CancelAt, r.Deadline, r.EndAt, errStr(r.Err))
 			}
 		}
